@@ -825,10 +825,12 @@ class ODLEncoder(PVLEncoder):
         """
         for quant in self.quantities:
             if isinstance(value, quant.cls):
+                magnitude = getattr(value, quant.value_prop)
+                # (True and False are ints to Python, but they are
+                # written as the keywords TRUE and FALSE, not as numbers)
                 if isinstance(
-                    getattr(value, quant.value_prop),
-                    self.numeric_types
-                ):
+                    magnitude, self.numeric_types
+                ) and not isinstance(magnitude, bool):
                     return super().encode_value(value)
                 else:
                     raise ValueError(
